@@ -40,7 +40,20 @@ BuildNext == \/ /\ nxt = 0
              \/ (nxt > 0 /\ ANext)
 BuildSpec == BuildInit /\ [][BuildNext]_vars
 
+\* for random simulation: the instance always gets MaxLinks links before the algorithm starts
+SimNext == \/ /\ nxt = 0
+              /\ Len(inst.links) < MaxLinks
+              /\ \E e \in Pairs(NPart) \ RangeOf(inst.links) : inst' = [inst EXCEPT !.links = Append(@, e)]
+              /\ UNCHANGED <<tr, done, nxt, cc, err, log>>
+           \/ /\ nxt = 0
+              /\ Len(inst.links) = MaxLinks
+              /\ nxt' = 1
+              /\ UNCHANGED <<inst, tr, done, cc, err, log>>
+           \/ (nxt > 0 /\ ANext)
+SimSpec == BuildInit /\ [][SimNext]_vars
+
 FamilyInstances == CASE Family = "all"        -> AllInstances(0)
                      [] Family = "skeleton"   -> SkeletonInstances(0)
                      [] Family = "appendixC6" -> AppendixC6
+                     [] OTHER                 -> {}
 =============================================================================
